@@ -728,6 +728,20 @@ def d4_ok_map(ctx, idx):
                 got = table.get(k, '<missing>')
                 r.check(got is v or (got == v and type(got) is type(v)), '%s(%s)' % (OK_FUNC, k), repr(v),
                         'grade %s is mapped to %r instead of %r' % (k, got, v), f.loc, expected=repr(v), found=repr(got))
+            seen_kinds = set()
+            for kind, node in _OK_MAP_NOTES:
+                if kind in seen_kinds:
+                    continue
+                seen_kinds.add(kind)
+                if kind == 'compare':
+                    r.violation('%s: returned value' % OK_FUNC, 'the value of the comparison `%s` is returned: for a numpy scalar grade (comparers and '
+                                'averages produce numpy.float64) that is numpy.bool_, not the singleton True/False, and the consumers test identity '
+                                '(`entry[\'ok\'] is True` in ListGrader.check zeroes a fully correct submission under partial_credit=False)'
+                                % short(node), lib.loc(f, node), expected='the constants True / False (dict lookup, or bool(...))')
+                elif kind == 'lossy-key':
+                    r.violation('%s: lookup key' % OK_FUNC, 'the lookup key is `%s`, a rounded grade: a grade strictly between 0 and 1 that rounds to 0 or 1 '
+                                '(e.g. a partial grade scaled by a small attempt credit) is mapped to False / True while grade_decimal keeps its '
+                                'value, so ok and grade_decimal disagree' % short(node), lib.loc(f, node), expected='the grade itself')
         vs = idx.func('mitxgraders.baseclasses.ItemGrader.validate_single_answer')
         recomputes = [(n, b) for n, b in _stores(vs.node, 'ok') if isinstance(n, ast.Assign) and isinstance(n.value, ast.Call) and nf.callee_name(n.value) == OK_FUNC]
         if not recomputes:
@@ -745,8 +759,12 @@ def d4_ok_map(ctx, idx):
                     'ok is computed from `%s`' % short(n.value.args[0]), lib.loc(vs, n))
 
 
+_OK_MAP_NOTES = []
+
+
 def _eval_ok_map(f):
     """Abstractly evaluate grade_decimal_to_ok on {0, 1, 0.5} (dict.get form or if-chain form)."""
+    del _OK_MAP_NOTES[:]
     pname = f.params[-1]
     out = {}
     paths = nf.decision_paths(f.node.body)
@@ -768,6 +786,22 @@ def _eval_ok_map(f):
             e = p.leaf.expr
             if isinstance(e, ast.Constant):
                 val = e.value
+            elif isinstance(e, ast.Compare) and pname in lib.names_in(e) and _eval_guard(e, pname, probe) is not None:
+                # the RESULT of a comparison is returned: its type follows the operand (numpy.bool_ for a numpy scalar grade),
+                # whereas consumers test `ok is True` / `ok is False`
+                raw = getattr(p.leaf.stmt, 'value', None)
+                if not (isinstance(raw, ast.Call) and isinstance(raw.func, ast.Name) and raw.func.id == 'bool'):
+                    _OK_MAP_NOTES.append(('compare', e))
+                val = _eval_guard(e, pname, probe)
+            elif isinstance(e, ast.Call) and nf.callee_name(e) == 'get' and len(e.args) == 2 \
+                    and isinstance(e.args[0], ast.Call) and nf.callee_name(e.args[0]) in ('round', 'int', 'floor', 'ceil', 'trunc', 'rint') \
+                    and e.args[0].args and isinstance(e.args[0].args[0], ast.Name) and e.args[0].args[0].id == pname:
+                _OK_MAP_NOTES.append(('lossy-key', e.args[0]))
+                tbl = _ok_table(f, e.func.value)
+                if tbl is None:
+                    return None
+                dflt = nf.const_value(e.args[1], '<?>')
+                val = tbl.get(probe, dflt)
             elif isinstance(e, ast.Call) and nf.callee_name(e) == 'get' and len(e.args) == 2 \
                     and isinstance(e.args[0], ast.Name) and e.args[0].id == pname:
                 tbl = _ok_table(f, e.func.value)
@@ -826,7 +860,7 @@ _CTX_INDEX = [None]
 
 
 def _eval_guard(g, pname, probe):
-    if isinstance(g, ast.Compare) and len(g.ops) == 1:
+    if isinstance(g, ast.Compare) and len(g.ops) == 1 and not isinstance(g.ops[0], (ast.In, ast.NotIn)):
         l, rr = g.left, g.comparators[0]
 
         def val(x):
@@ -840,6 +874,14 @@ def _eval_guard(g, pname, probe):
             return None
         op = type(g.ops[0])
         return {ast.Eq: a == b, ast.NotEq: a != b, ast.Lt: a < b, ast.LtE: a <= b, ast.Gt: a > b, ast.GtE: a >= b}.get(op)
+    if isinstance(g, ast.Compare) and len(g.ops) == 1 and isinstance(g.ops[0], (ast.In, ast.NotIn)) \
+            and isinstance(g.left, ast.Name) and g.left.id == pname and isinstance(g.comparators[0], (ast.Tuple, ast.List, ast.Set)) \
+            and all(isinstance(x, ast.Constant) and isinstance(x.value, (int, float)) for x in g.comparators[0].elts):
+        inside = any(probe == x.value for x in g.comparators[0].elts)
+        return inside if isinstance(g.ops[0], ast.In) else not inside
+    if isinstance(g, ast.UnaryOp) and isinstance(g.op, ast.Not):
+        v = _eval_guard(g.operand, pname, probe)
+        return None if v is None else (not v)
     if isinstance(g, ast.BoolOp):
         vals = [_eval_guard(v, pname, probe) for v in g.values]
         if any(v is None for v in vals):
@@ -926,6 +968,10 @@ def d6_ranges(ctx, idx):
 
 # ------------------------------------------------------------------------ self-test
 MUTANTS = [
+    Mutant('ok-map-returns-comparison (seed C05g)', BASE, "        return {0: False, 1: True}.get(grade, 'partial')",
+           "        if grade in (0, 1):\n            return grade == 1\n        return 'partial'", 'D4'),
+    Mutant('ok-map-rounds-its-key (seed C17h)', BASE, "        return {0: False, 1: True}.get(grade, 'partial')",
+           "        return {0: False, 1: True}.get(round(grade, 4), 'partial')", 'D4'),
     Mutant('cfn-true-test-negated', BASE, "        if value == True:\n            return {'ok': True, 'msg': '', 'grade_decimal': 1.0}", "        if value != True:\n            return {'ok': True, 'msg': '', 'grade_decimal': 1.0}", 'D3'),
     Mutant('cfn-false-test-flipped', BASE, "        elif value == False:\n            return {'ok': False, 'msg': '', 'grade_decimal': 0}", "        elif value != False:\n            return {'ok': False, 'msg': '', 'grade_decimal': 0}", 'D3'),
     Mutant('cfn-partial-case-sensitive-or', BASE, "        elif isinstance(value, str) and value.lower() == 'partial':", "        elif isinstance(value, str) or value.lower() == 'partial':", 'D3'),
@@ -966,6 +1012,8 @@ MUTANTS = [
 ]
 
 BENIGN = [
+    Benign('ok-map-if-chain-with-bool', BASE, "        return {0: False, 1: True}.get(grade, 'partial')",
+           "        if grade in (0, 1):\n            return bool(grade == 1)\n        return 'partial'"),
     Benign('raw-check-repair-guard-variant', 'mitxgraders/formulagrader/formulagrader.py', "            if result['ok'] == 'partial':\n                # Scaling", "            if result['ok'] is not True:\n                # Scaling"),
     Benign('ok-map-as-if-chain', BASE, "        return {0: False, 1: True}.get(grade, 'partial')", "        if grade == 0:\n            return False\n        if grade == 1:\n            return True\n        return 'partial'"),
     Benign('keys-as-tuple', BASE, "        keys = ['ok', 'grade_decimal', 'msg']\n", "        keys = ('msg', 'ok', 'grade_decimal')\n"),
